@@ -221,6 +221,34 @@ func runPostOps(sc *bw.Scenario, book *simkit.TapeBook, w *world, cl *closure, r
 			} else if d := diffLists(orig, fingerprint(b3, root, sc, cl)); d != "" {
 				out.Violate("C09", "reopen-differs", "accessors-relative", "bundle re-opened by a relative path differs: "+d)
 			}
+			// the directory is what is opened, each time: a copy is opened, its manifest rewritten in
+			// place (one letter of a commit message; same length, same modification time), and
+			// opened again - the second bundle says what the directory says now
+			if i := bytes.Index(res.manifest, []byte(`"git_commit_message": "`)); i >= 0 {
+				j := i + len(`"git_commit_message": "`)
+				if j < len(res.manifest) && res.manifest[j] >= 'a' && res.manifest[j] <= 'z' {
+					cp := "/w/reopen-copy"
+					os.RemoveAll(cp)
+					copyTree(root, cp)
+					stamp := time.Unix(1400000000, 0)
+					os.Chtimes(cp+"/terraform-sources.json", stamp, stamp)
+					if b5, err := sourcebundle.OpenDir(cp); err == nil {
+						before := fingerprint(b5, cp, sc, cl)
+						m2 := append([]byte{}, res.manifest...)
+						m2[j] = 'Z'
+						os.WriteFile(cp+"/terraform-sources.json", m2, 0o644)
+						os.Chtimes(cp+"/terraform-sources.json", stamp, stamp)
+						if b6, err := sourcebundle.OpenDir(cp); err == nil {
+							if after := fingerprint(b6, cp, sc, cl); strings.Join(after, "\n") == strings.Join(before, "\n") {
+								out.Violate("C09", "reopen-differs", "stale-after-rewrite", "a bundle directory whose manifest was rewritten in place (same size, same modification time) re-opens as the bundle it held before")
+							} else {
+								out.Probe("reopened-after-rewrite")
+							}
+						}
+					}
+					simkit.ForceRemoveAll(cp)
+				}
+			}
 			if sc.LinkRoots {
 				// the same directory reached through a symbolic link: the caller's root is the link
 				lnk := "/w/bundle-link"
